@@ -199,3 +199,20 @@ def spurious_overflow(t, nf):
         if q.is_const() and abs(q.const_value()) > 1:
             out.append((s, q.const_value()))
     return out
+
+
+def data_divisors(t):
+    """divisors (of `/` and `recip`) that depend on the inputs.  A real-number identity such as u·(a + c/u) = u·a + c hides
+    that the quotient is ±∞ (and the product NaN) when the divisor — a coefficient, the argument — is zero or subnormal;
+    polynomial evaluation, integration, differentiation and the operators only ever divide by literal constants."""
+    from ..terms import subterms
+    out = []
+    for s_ in subterms(t):
+        den = None
+        if isinstance(s_, tuple) and s_ and s_[0] == 'f/':
+            den = s_[2]
+        elif isinstance(s_, tuple) and len(s_) == 3 and s_[0] == 'fcall' and s_[1] == 'recip':
+            den = s_[2]
+        if den is not None and any(isinstance(x, tuple) and x and x[0] == 'sym' for x in subterms(den)):
+            out.append(den)
+    return out
